@@ -127,7 +127,7 @@ def build_ocaml():
         return True, ""
 
 
-MODEL_FILES = ["TempDirModel", "Format", "WfModel", "Components", "Report"]   # what Extract.v needs (kept free of proofs about Gen.v)
+MODEL_FILES = ["TempDirModel", "Format", "WfModel", "Components", "Report", "Json"]   # what Extract.v needs (kept free of proofs about Gen.v)
 
 
 def assumptions(module, theorems):
